@@ -65,6 +65,7 @@ def verus_shared(tier, seed):
         res['verus_cmd'] = r['cmd'].replace(scratch, '<scratch>')
         if want_canary and res['verus']['compiled']:
             res['canary'] = canary_runs(stats)
+            res['canary_lemmas'] = canary_lemmas(scratch)
             # second solver seed: disagreement is undecided, not an alarm
             r2 = vrun.run_verus(scratch, ['--smt-option', 'smt.random_seed=%d' % (1 + seed % 1000)])
             d2 = digest_verus(r2, scratch)
@@ -193,6 +194,39 @@ def canary_runs(stats):
             'requires_only': [o['fn'] for o in out if o['status'] == 'no-ensures'], 'compiled': True, 'wall_s': round(time.time() - t0, 1)}
 
 
+def canary_lemmas(scratch):
+    """vacuity canary for the property-level lemmas: `false` conjoined to ONE lemma's ensures at a time;
+    that lemma must then fail (its hypotheses are satisfiable)"""
+    from concurrent.futures import ThreadPoolExecutor
+    src = open(os.path.join(scratch, 'src', 'verif_lemmas.rs')).read().split('\n')
+    lem = []
+    for i, l in enumerate(src):
+        m = re.search(r'/\*@([^*]*)\*/\s*pub proof fn (\w+)', l)
+        if m:
+            lem.append((m.group(2), i))
+
+    def one(t):
+        name, i = t
+        d = tempfile.mkdtemp(prefix='hpke_lcan_')
+        try:
+            shutil.copytree(os.path.join(scratch, 'src'), os.path.join(d, 'src'))
+            lines = list(src)
+            for j in range(i, len(lines)):
+                m = re.search(r'\bensures\b', lines[j])
+                if m:
+                    lines[j] = lines[j][:m.end()] + ' false,' + lines[j][m.end():]
+                    break
+            open(os.path.join(d, 'src', 'verif_lemmas.rs'), 'w').write('\n'.join(lines))
+            r = vrun.run_verus(d, ['--verify-only-module', 'verif_lemmas'], threads=2)
+            j = (r['json'] or {}).get('verification-results', {})
+            return name, (j.get('errors') or 0) >= 1 and not j.get('encountered-vir-error')
+        finally:
+            shutil.rmtree(d, ignore_errors=True)
+    with ThreadPoolExecutor(max_workers=8) as ex:
+        out = list(ex.map(one, lem))
+    return {'lemmas': len(lem), 'vacuous': [n for n, ok in out if not ok]}
+
+
 # ------------------------------------------------------------------------------- attribution
 def fn_of_span(index, sp):
     for fn in index:
@@ -301,95 +335,97 @@ def main():
         os.remove(ev_path)
 
     res = verus_shared(tier, seed)
-    if res['status'] != 'ok':
-        say('UNDECIDED property=%s %s' % (pid, res.get('reason')))
-        return 2
-    vz = res['verus']
-    index = res['splice']['index']
-    fails = attribute(res)
-    lem = lemma_props()
-    # lemma failures -> properties of the lemma
-    for f in fails:
-        if f.get('lemma_span') and f['props'] is not None:
-            for name, li in lem.items():
-                if li['start'] <= f['lemma_span']['line'] <= li['end']:
-                    f['props'] = sorted(set(f['props']) | set(li['props']))
-                    f['fn'] = 'lemma ' + name
-    compile_fail = [f for f in fails if f['kind'] == 'compile'] or not vz['compiled']
-    if compile_fail:
-        say('UNDECIDED property=%s verus could not ingest the spliced crate:' % pid)
-        for f in fails[:5]:
-            say('   ', f['message'])
-        for l in vz.get('raw_stderr', [])[:10]:
-            say('   ', l)
-        return 2
-    undecided = [f for f in fails if f['kind'] == 'undecided' and (pid in (f['props'] or []))]
-
-    # ---- obligations of this property in the Verus run
+    verus_undecided = None
     obligations = []   # dict(name, backend, status, detail)
     fn_set = []
-    for fn in index:
-        mine = [t for t in fn['tags'] if pid in t['props']]
-        if not mine:
-            continue
-        fn_set.append(fn)
-        for t in mine:
-            name = '%s::%s ensures/requires@L%d' % (fn['rel'], ' > '.join(fn['scopes'][-1:] + [fn['fname']]), t['line'] - fn['start'])
-            if fn['external']:
-                obligations.append({'name': name, 'backend': 'assumed-in-verus', 'discharged_by': fn['discharged_by'], 'status': 'assumed'})
-            else:
-                obligations.append({'name': name, 'backend': 'verus', 'status': 'discharged', 'file': fn['rel'], 'line': t['line']})
-        if not fn['external'] and fn['has_body']:
-            obligations.append({'name': '%s::%s body-safety (no overflow/oob/unwrap/assert failure, callee preconditions)' % (fn['rel'], fn['fname']),
-                                'backend': 'verus', 'status': 'discharged', 'file': fn['rel'], 'fn': fn['fname']})
-    for name, li in lem.items():
-        if pid in li['props']:
-            obligations.append({'name': 'lemma %s' % name, 'backend': 'verus', 'status': 'discharged', 'lemma': name})
-
-    my_fails = [f for f in fails if f['kind'] == 'violation' and pid in (f['props'] or [])]
-    for f in my_fails:
-        hit = False
-        for o in obligations:
-            if o['backend'] != 'verus':
+    my_fails = []
+    n_verus = 0
+    vz = res.get('verus', {'verified': None, 'errors': None})
+    if res['status'] != 'ok':
+        verus_undecided = 'splice: %s' % res.get('reason')
+    else:
+        index = res['splice']['index']
+        fails = attribute(res)
+        lem = lemma_props()
+        # lemma failures -> properties of the lemma
+        for f in fails:
+            if f.get('lemma_span') and f['props'] is not None:
+                for name, li in lem.items():
+                    if li['start'] <= f['lemma_span']['line'] <= li['end']:
+                        f['props'] = sorted(set(f['props']) | set(li['props']))
+                        f['fn'] = 'lemma ' + name
+        if [f for f in fails if f['kind'] == 'compile'] or not vz['compiled']:
+            verus_undecided = 'verus could not ingest the spliced crate: ' + '; '.join([f['message'] for f in fails[:3]] + vz.get('raw_stderr', [])[:3])[:600]
+        elif [f for f in fails if f['kind'] == 'undecided' and (pid in (f['props'] or []))]:
+            verus_undecided = 'verus resource limit / unsupported on an obligation of this property'
+    if verus_undecided is None:
+        # ---- obligations of this property in the Verus run
+        for fn in index:
+            mine = [t for t in fn['tags'] if pid in t['props']]
+            if not mine:
                 continue
-            if f.get('clause') and o.get('line') and f['clause'] == '%s:%d' % (o['file'], o['line']):
-                o['status'] = 'FAILED'; o['detail'] = f['message']; hit = True
-            elif f.get('fn') and o.get('fn') and f['fn'] == '%s::%s' % (o['file'], o['fn']) and 'postcondition' not in f['message']:
-                o['status'] = 'FAILED'; o['detail'] = f['message']; hit = True
-            elif f.get('fn', '') and f['fn'].startswith('lemma ') and o.get('lemma') == f['fn'][6:]:
-                o['status'] = 'FAILED'; o['detail'] = f['message']; hit = True
-        if not hit:
-            obligations.append({'name': '%s %s' % (f.get('fn'), f.get('clause')), 'backend': 'verus', 'status': 'FAILED', 'detail': f['message']})
+            fn_set.append(fn)
+            for t in mine:
+                name = '%s::%s clause@+%d' % (fn['rel'], fn['fname'], t['line'] - fn['start'])
+                if fn['external']:
+                    obligations.append({'name': name, 'backend': 'assumed-in-verus', 'discharged_by': fn['discharged_by'], 'status': 'assumed'})
+                else:
+                    obligations.append({'name': name, 'backend': 'verus', 'status': 'discharged', 'file': fn['rel'], 'line': t['line']})
+            if not fn['external'] and fn['has_body']:
+                obligations.append({'name': '%s::%s body-safety (no overflow/oob/unwrap/assert failure, callee preconditions)' % (fn['rel'], fn['fname']),
+                                    'backend': 'verus', 'status': 'discharged', 'file': fn['rel'], 'fn': fn['fname']})
+        for name, li in lem.items():
+            if pid in li['props']:
+                obligations.append({'name': 'lemma %s' % name, 'backend': 'verus', 'status': 'discharged', 'lemma': name})
 
-    # expected verified-function set: every contracted fn must actually have been verified
-    fb = vz['functions']
-    missing = []
-    for fn in fn_set:
-        if fn['external'] or not fn['has_body']:
-            continue
-        cands = [x for x in fb if x['function'].split('::')[-1] == fn['fname']]
-        if not cands:
-            missing.append('%s::%s' % (fn['rel'], fn['fname']))
-    if missing:
-        say('UNDECIDED property=%s functions under contract were not verified by Verus: %s' % (pid, missing))
-        return 2
+        my_fails = [f for f in fails if f['kind'] == 'violation' and pid in (f['props'] or [])]
+        for f in my_fails:
+            hit = False
+            for o in obligations:
+                if o['backend'] != 'verus':
+                    continue
+                if f.get('clause') and o.get('line') and f['clause'] == '%s:%d' % (o['file'], o['line']):
+                    o['status'] = 'FAILED'; o['detail'] = f['message']; hit = True
+                elif f.get('fn') and o.get('fn') and f['fn'] == '%s::%s' % (o['file'], o['fn']) and 'postcondition' not in f['message']:
+                    o['status'] = 'FAILED'; o['detail'] = f['message']; hit = True
+                elif (f.get('fn') or '').startswith('lemma ') and o.get('lemma') == f['fn'][6:]:
+                    o['status'] = 'FAILED'; o['detail'] = f['message']; hit = True
+            if not hit:
+                obligations.append({'name': '%s %s' % (f.get('fn'), f.get('clause')), 'backend': 'verus', 'status': 'FAILED', 'detail': f['message']})
+
+        # expected verified-function set: every contracted fn must actually have been verified
+        fb = vz['functions']
+        missing = []
+        for fn in fn_set:
+            if fn['external'] or not fn['has_body']:
+                continue
+            cands = [x for x in fb if x['function'].split('::')[-1] == fn['fname']]
+            if not cands:
+                missing.append('%s::%s' % (fn['rel'], fn['fname']))
+        if missing:
+            verus_undecided = 'functions under contract were not verified by Verus: %s' % missing
+        n_verus = len([o for o in obligations if o['backend'] == 'verus'])
 
     # ---- Kani obligations
     kres = kani_run.run_for_property(pid, tier, seed)
     if kres.get('status') == 'undecided':
-        say('UNDECIDED property=%s kani: %s' % (pid, kres.get('reason')))
-        return 2
+        kres = {'harnesses': [{'name': '(kani build)', 'ok': False, 'undecided': True, 'detail': kres.get('reason')}], 'counterexamples': {}}
     for h in kres.get('harnesses', []):
         obligations.append({'name': 'kani %s' % h['name'], 'backend': 'kani/cbmc' + (' (BOUNDED: %s)' % h['bound'] if h.get('bound') else ' (complete: full input domain)'),
                             'status': 'discharged' if h['ok'] else ('UNDECIDED' if h.get('undecided') else 'FAILED'),
                             'detail': h.get('detail'), 'time_s': h.get('time_s'), 'bounded': bool(h.get('bound'))})
-    if any(o['status'] == 'UNDECIDED' for o in obligations):
-        say('UNDECIDED property=%s: %s' % (pid, [o['name'] for o in obligations if o['status'] == 'UNDECIDED']))
-        return 2
+    # ---- rustc trait-solver obligations
+    import rustc_run
+    rres = rustc_run.run(pid)
+    for h in rres:
+        obligations.append({'name': h['name'], 'backend': 'rustc trait solver', 'status': 'discharged' if h['ok'] else ('UNDECIDED' if h.get('undecided') else 'FAILED'),
+                            'detail': h.get('detail'), 'time_s': h.get('time_s')})
+        if not h['ok'] and not h.get('undecided'):
+            kres.setdefault('counterexamples', {})[h['name']] = 'rustc rejects the obligation (no input needed: it fails for every execution):\n' + (h.get('log') or '')
 
     # ---- vacuity guards
     vac = []
-    if tier == 'thorough':
+    if tier == 'thorough' and verus_undecided is None:
         c = res.get('canary', {})
         if not c.get('compiled', False):
             vac.append('canary run did not compile')
@@ -397,16 +433,29 @@ def main():
             mine = [x for x in c['did_not_fail'] if any(x == '%s::%s' % (fn['rel'], fn['fname']) for fn in fn_set)]
             if mine:
                 vac.append('vacuous contracts (canary `false` postcondition verified): %s' % mine)
+        cl = res.get('canary_lemmas', {})
+        lem_mine = [n for n, li in lemma_props().items() if pid in li['props']]
+        if [n for n in cl.get('vacuous', []) if n in lem_mine]:
+            vac.append('vacuous lemmas: %s' % [n for n in cl['vacuous'] if n in lem_mine])
         if res.get('seed2') and not res['seed2']['agree']:
             vac.append('solver seeds disagree')
     n_verus = len([o for o in obligations if o['backend'] == 'verus'])
-    if n_verus + len(kres.get('harnesses', [])) == 0:
+    if n_verus + len(kres.get('harnesses', [])) + len(rres) == 0 and verus_undecided is None:
         vac.append('no obligations generated')
-    if vac:
-        say('UNDECIDED property=%s vacuity guard: %s' % (pid, vac))
-        return 2
 
     failed = [o for o in obligations if o['status'] == 'FAILED']
+    # a definite violation from any back end is reported even when another back end is undecided
+    if not failed:
+        if verus_undecided:
+            say('UNDECIDED property=%s %s' % (pid, verus_undecided))
+            return 2
+        und = [o['name'] + ': ' + str(o.get('detail'))[:300] for o in obligations if o['status'] == 'UNDECIDED']
+        if und:
+            say('UNDECIDED property=%s: %s' % (pid, und))
+            return 2
+        if vac:
+            say('UNDECIDED property=%s vacuity guard: %s' % (pid, vac))
+            return 2
     # known findings
     kf = json.load(open(os.path.join(V, 'known_findings.json')))['findings']
     known_open = [k for k in kf if k['status'] == 'open' and k['property'] == pid]
@@ -429,19 +478,21 @@ def main():
             'obligations': len(counted),
             'discharged': len([o for o in counted if o['status'] == 'discharged']),
             'checker_cmd': 'python3 tools/check.py %s --tier %s  [verus: %s]' % (pid, tier, res.get('verus_cmd', '')[:600]),
-            'trusted_base': P.trusted_base(pid, res),
+            'trusted_base': P.trusted_base(pid, res) if res['status'] == 'ok' else list(P.BASE),
             'functions_under_contract': sorted(set('%s::%s%s' % (fn['rel'], fn['fname'], ' [assumed in Verus, discharged by %s]' % fn['discharged_by'] if fn['external'] else '') for fn in fn_set)),
             'samples': [o['name'] for o in obligations[:12]],
+            'verus_status': verus_undecided or 'ok',
             'backends': {'verus': {'obligations': n_verus, 'whole_crate_verified_fns': vz['verified'], 'whole_crate_errors': vz['errors'],
                                    'smt_ms': vz.get('smt_ms'), 'wall_s': vz.get('wall_s'), 'cached_shared_run': res.get('cached', False)},
-                         'kani': {'harnesses': [{k: h.get(k) for k in ('name', 'ok', 'time_s', 'bound', 'complete')} for h in kres.get('harnesses', [])]}},
+                         'kani': {'harnesses': [{k: h.get(k) for k in ('name', 'ok', 'time_s', 'bound', 'complete')} for h in kres.get('harnesses', [])]},
+                         'rustc': rres},
             'bounded_stand_ins_not_counted_as_proved': [o['name'] + ' ' + o['backend'] for o in bounded],
             'assumed_in_verus_discharged_elsewhere': [{'obligation': o['name'], 'by': o['discharged_by']} for o in assumed],
-            'splice_normalisations': res['splice']['counts'],
-            'vacuity': {'canary': res.get('canary'), 'seed2': res.get('seed2')} if tier == 'thorough' else 'quick tier: obligation-count guard only',
+            'splice_normalisations': res.get('splice', {}).get('counts'),
+            'vacuity': {'canary': res.get('canary'), 'canary_lemmas': res.get('canary_lemmas'), 'seed2': res.get('seed2')} if tier == 'thorough' else 'quick tier: obligation-count guard only',
             'explanation': meta['explanation'],
         },
-        'assumptions': P.assumptions(pid, res),
+        'assumptions': P.assumptions(pid, res) if res['status'] == 'ok' else list(P.BASE),
         'wall_s': round(wall, 2),
         'violations': len(reported),
     }
